@@ -57,6 +57,7 @@ type Frame struct {
 	results    []SVal // named at return for ensures
 	headers    map[*ssa.BasicBlock]int
 	loopPre    map[int]map[*Object]*ObjState // memory right after havoc at loop N
+	loopGhostPre map[int]map[string]SVal
 	ghostLocal map[string]SVal
 	callSite   string
 	noOver     map[*Object]bool
@@ -762,6 +763,14 @@ func (x *Exec) runBlock(fr *Frame, b *ssa.BasicBlock, pred *ssa.BasicBlock, st *
 			snap[o] = s
 		}
 		fr.loopPre[ord] = snap
+		gsnap := map[string]SVal{}
+		for k, v := range st.ghost {
+			gsnap[k] = v
+		}
+		if fr.loopGhostPre == nil {
+			fr.loopGhostPre = map[int]map[string]SVal{}
+		}
+		fr.loopGhostPre[ord] = gsnap
 		x.assumeInvariants(fr, b, ord, lc, st)
 	} else {
 		for phi, v := range phiVals {
@@ -1490,6 +1499,11 @@ func (x *Exec) doSelect(fr *Frame, st *State, v *ssa.Select, k func(*State, SVal
 	for i := lo; i < int64(n); i++ {
 		s2 := st.Clone()
 		s2.events = append(s2.events, fmt.Sprintf("select:%d", i))
+		if f, ok := s2.ghost["faults"]; ok && i >= 0 {
+			// a non-default case fired (context done / timer): counted as an environment fault
+			s2.ghost["faults"] = tb.BVBin("bvadd", f.(*Term), tb.BVi(64, 1))
+			x.ghostBound(s2, "faults")
+		}
 		vals := []SVal{tb.BVi(64, i), tb.Fresh("recvok", SBool)}
 		for _, sst := range v.States {
 			if sst.Dir == types.RecvOnly {
